@@ -127,6 +127,19 @@ class InputProp:
 
     # ------------------------------------------------------------------ parent
     def main(self, tier, seed, gate=True):
+        import shutil
+        import tempfile
+        # everything the cases create through tempfile lands under one run-private root, removed at the end
+        tmproot = tempfile.mkdtemp(prefix="verif-%s-" % self.id)
+        old_tmp = tempfile.tempdir
+        tempfile.tempdir = tmproot
+        try:
+            return self._main(tier, seed, gate)
+        finally:
+            tempfile.tempdir = old_tmp
+            shutil.rmtree(tmproot, ignore_errors=True)
+
+    def _main(self, tier, seed, gate=True):
         t0 = time.time()
         self.tier = tier
         self.prepare(tier)
